@@ -355,6 +355,47 @@ def cosmetic(rnd, g, ir):
     return deco(raw)
 
 
+def _names_in(t):
+    out = []
+    if isinstance(t, list):
+        for b in t:
+            out += _names_in(b)
+    elif isinstance(t, dict):
+        if isinstance(t.get("name"), str) and t.get("type") in ("record", "error", "enum", "fixed"):
+            out.append(t["name"])
+        for k in ("items", "values", "type"):
+            if isinstance(t.get(k), (dict, list)):
+                out += _names_in(t[k])
+        for f in t.get("fields", []) if isinstance(t.get("fields"), list) else []:
+            out += _names_in(f.get("type"))
+    return out
+
+
+def _embed_parsed_child(fa, raw):
+    """raw with the first self-contained named type that inherits its namespace from a namespaced record replaced by parse_schema(child)."""
+    if not (isinstance(raw, dict) and raw.get("type") in ("record", "error")):
+        return None
+    name = raw.get("name", "")
+    ns = name.rsplit(".", 1)[0] if "." in name else raw.get("namespace", "")
+    if not ns:
+        return None
+    for i, f in enumerate(raw.get("fields", [])):
+        t = f.get("type")
+        # (nothing inside it pins a namespace of its own: parsed alone, "in the null namespace" and "inherits" cannot be told apart)
+        if isinstance(t, dict) and t.get("type") in ("record", "enum", "fixed") and "." not in t.get("name", ".") \
+                and '"namespace"' not in json.dumps(t) and not any("." in n for n in _names_in(t)):
+            try:
+                child = fa.parse_schema(copy.deepcopy(t))        # on its own: in the null namespace, for the moment
+            except Exception:  # noqa: BLE001 - it refers to something outside itself
+                continue
+            if not isinstance(child, dict):
+                continue
+            out = copy.deepcopy(raw)
+            out["fields"][i]["type"] = child
+            return out
+    return None
+
+
 def run_c13(ctx, fa):
     from fastavro.schema import to_parsing_canonical_form
     rnd = ctx.sub_rnd("c13")
@@ -390,6 +431,15 @@ def run_c13(ctx, fa):
             except Exception as e:  # noqa: BLE001
                 vt = "<<" + type(e).__name__ + ">>"
             c["variants"].append({"schema": proj.pj(v), "text": proj.cps(vt)})
+        # a named type of the schema parsed on its own beforehand and put back as the parsed object (two calls): the markers it carries are
+        # attributes like any other, the canonical form is that of the plain schema
+        emb = _embed_parsed_child(fa, raw)
+        if emb is not None:
+            try:
+                vt = to_parsing_canonical_form(emb)
+            except Exception as e:  # noqa: BLE001
+                vt = "<<" + type(e).__name__ + ">>"
+            c["variants"].append({"schema": proj.pj(raw), "text": proj.cps(vt), "kind": "embedded-parsed-child"})
         if tree2 is not None:
             for _ in range(2):
                 try:
